@@ -32,6 +32,7 @@ fix = Function('fix', SetS, Sq, I, I)    # index map of filt into s
 fjx = Function('fjx', SetS, Sq, I, I)    # inverse of the index map
 addall = Function('addall', Sq, Sq, Sq)  # s ++ first occurrences of members of t not already present
 cnt = Function('cnt', Sq, V, I)          # number of occurrences
+flat = Function('flat', Sq, Sq)           # concatenation of a sequence of (boxed) sequences
 smap = Function('smap', MapS, Sq, Sq)     # [M[x] for x in s]
 seqeq = Function('seqeq', Sq, Sq, B)     # sequence equality: as a hypothesis it yields term equality (sequences are extensional),
 eqw = Function('eqw', Sq, Sq, I)         # as a goal it is refuted by a witness index where the two differ
@@ -179,6 +180,19 @@ def axioms():
                                                  Implies(i < 16, strlen(hexstr(i)) == 1), Implies(i < 256, strlen(hexstr(i)) <= 2),
                                                  Implies(i < 4096, strlen(hexstr(i)) <= 3), Implies(i < 65536, strlen(hexstr(i)) <= 4),
                                                  Implies(i < 1048576, strlen(hexstr(i)) <= 5))), patterns=[hexstr(i)]))
+    # flat (List.flatten): snoc-recursive definition + membership; order / nodup lemmas (lemmas/Flat.lean)
+    A('flat_nil', flat(sempty) == sempty)
+    A('flat_snoc', ForAll([s, x], flat(app(s, x)) == cat(flat(s), sunbox(x)), patterns=[flat(app(s, x))]))
+    A('flat_mem', ForAll([s, y], mem(flat(s), y) == Exists([j], And(0 <= j, j < slen(s), mem(sunbox(at(s, j)), y))), patterns=[mem(flat(s), y)]))
+    A('flat_mem_intro', ForAll([s, j, y], Implies(And(0 <= j, j < slen(s), mem(sunbox(at(s, j)), y)), mem(flat(s), y)),
+                               patterns=[MultiPattern(flat(s), mem(sunbox(at(s, j)), y))]))
+    A('flat_nodup', ForAll([s], Or(nodup(flat(s)),
+                                   Exists([j], And(0 <= j, j < slen(s), Not(nodup(sunbox(at(s, j)))))),
+                                   Exists([i, j, y], And(0 <= i, i < j, j < slen(s), mem(sunbox(at(s, i)), y), mem(sunbox(at(s, j)), y)))),
+                           patterns=[nodup(flat(s))]))
+    A('flat_order', ForAll([s, i, j, x, y], Implies(And(0 <= i, i < j, j < slen(s), mem(sunbox(at(s, i)), x), mem(sunbox(at(s, j)), y), nodup(flat(s))),
+                                                    pos(flat(s), x) < pos(flat(s), y)),
+                           patterns=[MultiPattern(flat(s), mem(sunbox(at(s, i)), x), mem(sunbox(at(s, j)), y))]))
     # boxing
     A('ibox', ForAll([i], And(iunbox(ibox(i)) == i, is_int(ibox(i)), Not(is_ref(ibox(i))), Not(is_tup(ibox(i))), truthy(ibox(i)) == (i != 0)), patterns=[ibox(i)]))
     A('iunbox', ForAll([x], Implies(is_int(x), ibox(iunbox(x)) == x), patterns=[iunbox(x)]))
